@@ -361,7 +361,7 @@ impl Session {
                 addr,
                 piece_index,
                 resp_ch,
-            } => self.handle_have(&addr, piece_index, resp_ch),
+            } => self.handle_have(&addr, piece_index, resp_ch).await,
             PeerCmd::RecvBitfield {
                 addr,
                 bitfield,
@@ -456,14 +456,19 @@ impl Session {
         Ok(true)
     }
 
-    fn handle_have(
+    async fn handle_have(
         &mut self,
         addr: &String,
         piece_index: usize,
         resp_ch: oneshot::Sender<HaveCmd>,
     ) -> Result<bool, Error> {
         let peer = self.peers.get_mut(addr).ok_or(Error::PeerNotFound)?;
-        let cmd = peer.handle_have(piece_index, &mut self.pieces_status, &self.metainfo);
+        peer.pieces[piece_index] = true;
+
+        // Announced piece is not necessarily the rarest one this peer can give us now
+        let chosen_index = self.choose_piece_index(addr).await;
+        let peer = self.peers.get_mut(addr).ok_or(Error::PeerNotFound)?;
+        let cmd = peer.handle_have(chosen_index, &mut self.pieces_status, &self.metainfo);
         let _ = resp_ch.send(cmd);
         Ok(true)
     }
